@@ -903,6 +903,7 @@ func genStreams(r *runner) {
 func registerAll() {
 	buildKeyring()
 	registerCron()
+	registerCronZones()
 	registerTime()
 	registerCrypto()
 	registerPEM()
@@ -920,6 +921,7 @@ func registerAll() {
 	gen("cron", genCron)
 	gen("blank", genBlank)
 	gen("scaling", genScaling)
+	gen("cronzones", genCronZones) // last: a Next that never returns leaves spinning goroutines behind
 }
 
 // rvOf describes a Go value the way the Lean reflect model sees it (KitModel/NoPanicReflect.lean RV).
